@@ -33,6 +33,7 @@ type framePlan struct {
 	depth   int
 	caps    []int
 	scratch []int
+	kinds   string // space separated universes; "" = all
 }
 
 type combPlan struct {
@@ -41,6 +42,11 @@ type combPlan struct {
 	depth   int
 	targets []int
 	terms   []terminal
+	kinds   string
+}
+
+func hasKind(list string, kd *kind) bool {
+	return list == "" || strings.Contains(" "+list+" ", " "+kd.name+" ")
 }
 
 var (
@@ -57,7 +63,7 @@ func main() {
 	}
 	budget := 4 * time.Minute
 	if r.Thorough() {
-		budget = 25 * time.Minute
+		budget = 15 * time.Minute
 	}
 	if *flagProf != "" {
 		f, err := os.Create(*flagProf)
@@ -78,31 +84,45 @@ func main() {
 	var framePlans []framePlan
 	var combPlans []combPlan
 	allTerms := []terminal{{"Reader/out=1", 1}, {"Reader/out=3", 3}, {"WriteTo", 0}}
+	const others = "string-keys pair-keys"
+	all4 := []int{1, 2, 3, 5}
 	if r.Thorough() {
+		// simplest first: when the soft budget is hit only the deepest levels are cut
 		framePlans = []framePlan{
-			{wideAlphabet(true), 2, []int{2, 4, 8}, []int{1, 2, 3}},
-			{midAlphabet(true), 4, []int{1, 4, 8}, []int{1, 3}},
-			{deepAlphabet(true), 7, []int{8}, []int{1, 3}},
-			{deepAlphabet(true), 6, []int{1, 2, 4, 16}, []int{2}},
+			{wideAlphabet(true), 2, []int{2, 4, 8}, []int{1, 2, 3}, ""},
+			{midAlphabet(true), 4, []int{1, 4, 8}, []int{1, 3}, ""},
+			{deepAlphabet(true), 5, []int{1, 2, 4, 16}, []int{2}, others},
+			{deepAlphabet(true), 6, []int{1, 2, 4, 16}, []int{2}, "int-keys"},
+			{deepAlphabet(true), 6, []int{8}, []int{1}, others},
+			{deepAlphabet(true), 7, []int{8}, []int{3}, ""},
+			{deepAlphabet(true), 7, []int{8}, []int{1}, "int-keys"},
 		}
 		combPlans = []combPlan{
-			{sizes{8, 3, 2, 2, 2}, 4, 7, []int{1, 2, 3, 5}, allTerms},
-			{sizes{8, 1, 128, 128, 128}, 6, 4, []int{1, 2, 3, 5}, allTerms},
-			{sizes{2, 3, 3, 2, 3}, 8, 3, []int{1, 2, 3, 5}, allTerms},
-			{sizes{4, 2, 2, 3, 2}, 10, 3, []int{1, 2, 3, 5}, allTerms},
+			{sizes{4, 2, 2, 3, 2}, 10, 2, all4, allTerms, ""},
+			{sizes{8, 1, 128, 128, 128}, 6, 3, all4, allTerms, ""},
+			{sizes{2, 3, 3, 2, 3}, 8, 3, all4, allTerms, ""},
+			{sizes{8, 3, 2, 2, 2}, 4, 6, all4, allTerms, others},
+			{sizes{8, 3, 2, 2, 2}, 4, 7, all4, allTerms, "int-keys"},
 		}
 	} else {
 		framePlans = []framePlan{
-			{wideAlphabet(true), 2, []int{2, 8}, []int{1, 3}},
-			{midAlphabet(true), 3, []int{4, 8}, []int{1, 3}},
-			{deepAlphabet(true), 5, []int{8}, []int{1, 3}},
-			{deepAlphabet(true), 4, []int{1, 2}, []int{2}},
+			{wideAlphabet(true), 2, []int{2, 8}, []int{1, 3}, ""},
+			{midAlphabet(true), 3, []int{4, 8}, []int{1, 3}, ""},
+			{deepAlphabet(true), 5, []int{8}, []int{1, 3}, ""},
+			{deepAlphabet(true), 4, []int{1, 2}, []int{2}, ""},
 		}
 		combPlans = []combPlan{
-			{sizes{8, 3, 2, 2, 2}, 4, 5, []int{1, 2, 3, 5}, allTerms},
-			{sizes{2, 3, 3, 2, 3}, 6, 3, []int{1, 2, 3, 5}, allTerms},
-			{sizes{8, 1, 128, 128, 128}, 8, 2, []int{1, 2, 3, 5}, allTerms},
+			{sizes{8, 1, 128, 128, 128}, 8, 2, all4, allTerms, ""},
+			{sizes{2, 3, 3, 2, 3}, 6, 3, all4, allTerms, ""},
+			{sizes{8, 3, 2, 2, 2}, 4, 5, all4, allTerms, ""},
 		}
+	}
+	// Phase A may use at most 45% of the soft budget, so that the spilling combiner is
+	// reached on a slow machine too.
+	budgetA := budget * 45 / 100
+	if r.Budget != 0 {
+		budget = r.Budget
+		budgetA = r.Budget * 45 / 100
 	}
 
 	fst := &frameStats{}
@@ -134,11 +154,15 @@ func main() {
 		finish()
 	})
 
+	var skipped []string
 	want := func(label string) bool { return *flagOnly == "" || strings.Contains(label, *flagOnly) }
 
 	// ---- phase A: combiningFrame ------------------------------------------------
 	for _, p := range framePlans {
 		for _, kd := range kinds {
+			if !hasKind(p.kinds, kd) {
+				continue
+			}
 			frames := p.al.frames(kd)
 			for _, c := range p.caps {
 				for _, sc := range p.scratch {
@@ -146,7 +170,11 @@ func main() {
 					if !want(sp.label()) {
 						continue
 					}
-					res := bfs(r, sp, p.depth, budget)
+					if r.Elapsed() > budgetA {
+						skipped = append(skipped, sp.label()+" alphabet="+p.al.name)
+						continue
+					}
+					res := bfs(r, sp, p.depth, budgetA)
 					mu.Lock()
 					results = append(results, res)
 					mu.Unlock()
@@ -165,10 +193,17 @@ func main() {
 		sliceio.SpillBatchSize = p.z.SpillBatch
 		al := spillAlphabet(p.nops)
 		for _, kd := range kinds {
+			if !hasKind(p.kinds, kd) {
+				continue
+			}
 			frames := al.frames(kd)
 			for _, t := range p.targets {
 				sp := &combSpace{r: r, kd: kd, z: p.z, target: t, al: al, frames: frames, terms: p.terms, st: cst}
 				if !want(sp.label()) {
+					continue
+				}
+				if r.Elapsed() > budget {
+					skipped = append(skipped, sp.label()+" alphabet="+al.name)
 					continue
 				}
 				res := bfs(r, sp, p.depth, budget)
@@ -177,6 +212,9 @@ func main() {
 				mu.Unlock()
 			}
 		}
+	}
+	if len(skipped) > 0 {
+		r.NotExhaustive(fmt.Sprintf("time budget: %d spaces not explored at all: %s", len(skipped), strings.Join(skipped, "; ")))
 	}
 	finish()
 }
@@ -246,6 +284,11 @@ func coverage(results []bfsResult, f *frameStats, c *combStats, fp []framePlan, 
 		"transitions":                   trans,
 		"traces_validated_against_impl": f.traces + c.readbacks, // every replay on a fresh real object
 		"max_depth":                     maxDepth,
+		// non-vacuity, measured over every executed history:
+		"histories_reaching_a_resize":         f.withResize,
+		"histories_ending_in_probe_collision": f.displaced,
+		"histories_with_2plus_spills":         c.spills[2] + c.spills[3],
+		"distinct_readback_outcomes":          c.outcomes.Distinct(),
 		"rule": "BFS over operation histories; successor = replay of h·o on a fresh real combiningFrame/combiner; de-duplication on the canonical full slot dump " +
 			"(cap,len,threshold,mask,hits/key/value of every slot; for the combiner also every spilled run and the record count); oracle after the last step of every executed history " +
 			"(every prefix is itself an executed history): rows held == plain map model; Compact returns every key once; Reader()/WriteTo: strictly ascending keys, one row per key, folded sums; spill directory gone",
